@@ -35,7 +35,9 @@ ROOT = os.path.dirname(os.path.dirname(os.path.dirname(os.path.abspath(__file__)
 PY = sys.executable
 
 
-COLLIDING = ["Client", "Server", "PACKET", "Net", "Map", "Pub", "Data", "Encrypt", "Protocol", "Sys", "Pyramid", "PyThing", "XmlDoc", "Init", "Generated", "Eolib"]
+COLLIDING = ["Client", "Server", "PACKET", "Net", "Map", "Pub", "Data", "Encrypt", "Protocol", "Sys", "Pyramid", "PyThing", "XmlDoc", "Init", "Generated", "Eolib",
+             "Globals", "Str", "Len", "Range", "Set", "Open", "Bytes", "Filter", "Sorted", "Getattr", "Vars", "Dir", "Print",
+             "Object", "Tuple", "Zip", "Isinstance", "Setattr", "Hasattr", "Any", "All", "Iter", "Next", "Super", "List", "Dict", "Type", "Int"]
 PATHS = ["", "net", "net/client", "net/server", "map", "pub", "pub/server"]
 FORBIDDEN = {"": {"net", "map", "pub"}, "net": {"client", "server"}, "pub": {"server"}}
 N_COLLISION = {"quick": 4, "thorough": 14}
